@@ -51,7 +51,8 @@ def reference(start, end, dur, hop, incomplete):
 @st.composite
 def grid_case(draw):
     g = draw(st.sampled_from([2.0**-4, 2.0**-2, 1.0, 0.5]))
-    start = draw(st.sampled_from([0, 0, 1, 7, 3600 * 16, 14400 * 16])) * g if g < 1 else draw(st.sampled_from([0.0, 3.0, 3600.0, 10000.0]))
+    # clips may start before t = 0 (a clip padded around an event at the very beginning of a recording)
+    start = draw(st.sampled_from([0, 0, 1, 7, 3600 * 16, 14400 * 16, -3, -40])) * g if g < 1 else draw(st.sampled_from([0.0, 3.0, 3600.0, 10000.0, -2.0, -7.0]))
     n = draw(st.integers(0, 60))
     d = draw(st.integers(1, 24))
     hop_mode = draw(st.sampled_from(["none", "lt", "eq", "gt", "any"]))
@@ -249,6 +250,48 @@ def check_many(spec, ctx):
 
 
 @st.composite
+def ids_case(draw):
+    g = 0.25
+    return {"start": draw(st.sampled_from([0.0, 1.5, 3600.0])), "length": draw(st.integers(4, 40)) * g, "duration": draw(st.integers(1, 8)) * g, "hop": draw(st.integers(1, 8)) * g,
+            "incomplete": draw(st.booleans()), "salt": draw(st.integers(1, 2**30)), "other_hashseed": draw(st.sampled_from([0, 7, 4242]))}
+
+
+_CHILD = """
+import sys, json, uuid
+sys.path[:0] = json.loads(sys.argv[1])
+from soundevent import data
+from soundevent.operations import segment_clip
+s = json.loads(sys.argv[2])
+rec = data.Recording(uuid=str(uuid.UUID(int=7)), path="r.wav", duration=1e6, channels=1, samplerate=8000)
+clip = data.Clip(uuid=str(uuid.UUID(int=s["salt"])), recording=rec, start_time=s["start"], end_time=s["start"] + s["length"])
+print(json.dumps([[x.start_time, x.end_time, str(x.uuid)] for x in segment_clip(clip, duration=s["duration"], hop=s["hop"], include_incomplete=s["incomplete"])]))
+"""
+
+
+def check_ids(spec, ctx):
+    """Identifiers are a function of the parent identifier and the bounds - in every process: another interpreter (with another
+    string-hash seed) must produce the very same identifiers for the same clip and settings."""
+    import json
+    import os
+    import subprocess
+    import sys
+
+    from soundevent.operations import segment_clip
+
+    clip, rec, end = _clip(spec)
+    here = [[x.start_time, x.end_time, str(x.uuid)] for x in segment_clip(clip, duration=spec["duration"], hop=spec["hop"], include_incomplete=spec["incomplete"])]
+    ctx.case(spec, nontrivial=len(here) >= 2, labels=[f"hashseed={spec['other_hashseed']}"], out={"n": len(here)})
+    env = dict(os.environ, PYTHONHASHSEED=str(spec["other_hashseed"]))
+    r = subprocess.run([sys.executable, "-W", "ignore", "-c", _CHILD, json.dumps([p for p in sys.path if p]), json.dumps(spec)], env=env, capture_output=True, text=True)
+    if r.returncode != 0:
+        raise RuntimeError("child interpreter failed: " + r.stderr[-400:])
+    there = json.loads(r.stdout.strip().splitlines()[-1])
+    if there != here:
+        diff = next((a, b) for a, b in zip(here, there) if a != b) if len(here) == len(there) else (len(here), len(there))
+        ctx.fail(f"the same segmentation in another interpreter process (PYTHONHASHSEED={spec['other_hashseed']}) gives other segments / identifiers: {diff}", spec, there[:3], here[:3], kind="uuid_across_processes")
+
+
+@st.composite
 def bad_case(draw):
     which = draw(st.sampled_from(["dur0", "dur_neg", "hop0", "hop_neg"]))
     v = {"dur0": draw(st.sampled_from([0.0, -0.0, 0])), "dur_neg": -draw(st.sampled_from([5e-324, 1.0, 1e-9])), "hop0": draw(st.sampled_from([0.0, -0.0, 0])), "hop_neg": -draw(st.sampled_from([5e-324, 1.0, 1e-9]))}[which]
@@ -279,5 +322,6 @@ SUBS = [
     Sub("lattice_grid", check, strategy=grid_case, quick=12000, thorough=400000, min_nontrivial=0.3),
     Sub("lattice_free", check, strategy=free_case, quick=6000, thorough=200000, min_nontrivial=0.3),
     Sub("many_segments", check_many, strategy=many_case, quick=24, thorough=200, min_nontrivial=0.2),
+    Sub("ids_across_processes", check_ids, strategy=ids_case, quick=12, thorough=60),
     Sub("rejects_nonpositive", check_bad, strategy=bad_case, quick=400, thorough=4000),
 ]
